@@ -2,6 +2,7 @@ import GraafVerif.Proof.PredALSched
 import GraafVerif.Proof.PredMXComplete
 import GraafVerif.Proof.PredEL
 import GraafVerif.Proof.QueryALSeq
+import GraafVerif.Proof.PredFast
 /-!
 # C12 — structural predicates decide exactly their mathematical definitions
 
@@ -267,6 +268,20 @@ theorem wl_rel (h d : AdjListW) (hh : h.WF) (hd : d.WF) :
     RelStatement (Query.WL.core h) (Query.WL.core d) (Query.WL.abs h) (Query.WL.abs d) :=
   blanket_rel (Query.WL.core_correct hh) (Query.WL.core_correct hd) (Query.WL.abs_valid hh) (Query.WL.abs_valid hd)
 example : Pred.WL.isComplete ⟨[[(1, 5)], [(0, -2)]]⟩ = true := by decide
+
+/-! ## The driver's `Array` / bitset twins (orders > 128) are the proved list models — no hypotheses -/
+theorem al_isSemicompleteFast_eq (d : AdjList) (t : Nat) : Pred.AL.isSemicompleteFast d t = Pred.AL.isSemicomplete d t :=
+  Pred.AL.isSemicompleteFast_eq d t
+theorem al_isTournamentFast_eq (d : AdjList) : Pred.AL.isTournamentFast d = Pred.AL.isTournament d :=
+  Pred.AL.isTournamentFast_eq d
+/-- the query record answered from the bitset / row array (all blanket predicates go through it) -/
+theorem al_coreFast_eq (d : AdjList) : Pred.AL.coreFast d = Query.AL.core d := Pred.AL.coreFast_eq d
+/-- `empty(n)` + `add_arc` over an `Array` of rows = the list model's build (body of `Driver.buildAL`) -/
+theorem al_buildRowsFast_eq (n : Nat) (arcs : List (Nat × Nat)) :
+    Pred.AL.buildRowsFast n arcs = (AdjList.empty n).bind (fun e => arcs.foldlM (fun g a => g.addArc a.1 a.2) e) :=
+  Pred.AL.buildRowsFast_eq n arcs
+example : Pred.AL.isSemicompleteFast ⟨[[1], [0, 2], []]⟩ 2 = false := by decide
+example : Pred.AL.isTournamentFast ⟨[[1], [2], [0]]⟩ = true := by decide
 
 /-- **C12, full statement.** -/
 theorem statement : Statement :=
